@@ -132,6 +132,10 @@ def extra(tier, seed, wd, sh, GOENV):
             problems.append(("unproved", "race-detector run failed on " + os.path.basename(cp),
                              {"kind": "driver", "what": "c20race", "output": out[-3000:]}))
             continue
+        if not any(l.strip() for l in open(cp)):
+            problems.append(("unproved", "race-detector run produced no scenario for " + os.path.basename(cp),
+                             {"kind": "driver", "what": "c20race", "output": out[-3000:]}))
+            continue
         impl = {}
         for l in open(op):
             i, _, rest = l.rstrip("\n").partition(" ")
